@@ -5,7 +5,14 @@ import NibabelModel.Lemmas.C11
   code, both byte orders, NIfTI-1 and NIfTI-2 (through `FmtOK`, discharged for the two GENERATED constant sets
   by `formats_ok`), every data string and every explicit offset.  Guards are exactly the inputs the real writer
   accepts: `ExtOK x` (esize and ecode fit int32, else OverflowError) and, for single files, non-empty data.
-  The size formula is the expression regenerated from `get_sizeondisk`; it is unfolded only in `size_ok`. -/
+  Generated from the source on every run and unfolded only in Lemmas (`size_ok`, `rules_ok`): the size formula
+  of `get_sizeondisk` and the eleven one-line integer rules of reader and writer.
+  The `vox_offset` header FIELD is modelled with its precision (float32 in NIfTI-1, int64 in NIfTI-2, flag
+  generated from the dtype): theorems about an offset the LIBRARY chooses assume nothing about it (repaired
+  fill-in rule), theorems about an EXPLICIT offset speak about the stored value or assume the request exactly
+  representable (`offset_field_exact`).
+  `codec_roundtrip`, `size_ok` and `ext_gap_fixed_example` re-export a lemma / are a concrete instance; they are
+  kept as named obligations (the first two are what everything else rests on), not as independent claims. -/
 namespace Nb.C11
 
 /-! ## the generated items -/
